@@ -13,7 +13,6 @@ CONSTANTS
   MaxCommits = 2
 VIEW mcView
 CONSTRAINT StateConstraint
-ACTION_CONSTRAINT UpdateThenCommit
 INVARIANTS TypeOK IdxConsistent Refines SrSync CommittedIsRef SnapsValid
 PROPERTIES RevertRestores ReadsSeeLastWrite UpdateCommitTransparent
 CHECK_DEADLOCK FALSE
